@@ -91,14 +91,14 @@ var jsonDomain = map[string]bool{"map[string]interface{}": true, "[]interface{}"
 
 type tagAnalysis struct {
 	refineDepth int
-	p     *Prog
-	fn    *ssa.Function
-	buf   *ssa.Parameter
-	tf    *typeFlow
-	cz    *canonizer
-	viol  map[string]string // description -> position
-	nEv   int
-	tuple int
+	p           *Prog
+	fn          *ssa.Function
+	buf         *ssa.Parameter
+	tf          *typeFlow
+	cz          *canonizer
+	viol        map[string]string // description -> position
+	nEv         int
+	tuple       int
 	// typeOf: dynamic type set of an interface operand under a tuple (set by the rule)
 	typeOf        func(t tagTuple, v ssa.Value) tset
 	assumedNumber bool
